@@ -29,6 +29,7 @@ _orig = {
     "rename": os.rename,
     "replace": os.replace,
     "link": os.link,
+    "os_open": os.open,
     "symlink": os.symlink,
     "stat": os.stat,
     "lstat": os.lstat,
@@ -206,9 +207,18 @@ class Seam:
 class TracedFileIO(io.FileIO):
     def __init__(self, file, mode="r", closefd=True, opener=None):
         seam = ACTIVE
-        self._xv_path = path = _abs(file)
         self._xv_seam = seam
         self._xv_closed = False
+        if isinstance(file, int):
+            # an already open descriptor (os.open / mkstemp, whose creation
+            # of the file was traced there): only its writes are traced
+            self._xv_path = _fd_path(file)
+            super().__init__(file, mode, closefd=closefd)
+            self._xv_append = "a" in mode
+            self._xv_chunk = None
+            seam.open_files.add(self)
+            return
+        self._xv_path = path = _abs(file)
         existed = _lexists(path)
         mut = any(c in mode for c in "wxa+")
         trunc = "w" in mode
@@ -294,7 +304,7 @@ class TracedFileIO(io.FileIO):
 def _traced_open(file, mode="r", buffering=-1, encoding=None, errors=None,
                  newline=None, closefd=True, opener=None):
     seam = ACTIVE
-    path = None if isinstance(file, int) else _abs(file)
+    path = _fd_path(file) if isinstance(file, int) else _abs(file)
     if seam is None or not seam.inside(path) or opener is not None:
         return _orig["open"](file, mode, buffering, encoding, errors, newline,
                              closefd, opener)
@@ -343,6 +353,27 @@ def _traced_open(file, mode="r", buffering=-1, encoding=None, errors=None,
     except BaseException:
         result.close()
         raise
+
+
+def _fd_path(fd):
+    try:
+        return os.readlink("/proc/self/fd/%d" % fd)
+    except OSError:
+        return None
+
+
+def _os_open(path, flags, mode=0o777, *, dir_fd=None):
+    seam = ACTIVE
+    p = None if isinstance(path, int) else _abs(path)
+    if seam is None or not seam.inside(p) or dir_fd is not None:
+        return _orig["os_open"](path, flags, mode, dir_fd=dir_fd)
+    existed = _lexists(p)
+    trunc = bool(flags & os.O_TRUNC)
+    creates = (not existed) and bool(flags & os.O_CREAT)
+    return seam.op("open", p,
+                   lambda: _orig["os_open"](path, flags, mode), 
+                   trunc or creates, mode="os.open", existed=existed,
+                   trunc=trunc)
 
 
 def _wrap1(name, kind, mut):
@@ -435,6 +466,7 @@ def _install():
     os.truncate = _wrap1("truncate", "truncate_path", True)
     os.rename = _wrap2("rename", "rename")
     os.replace = _wrap2("replace", "rename")
+    os.open = _os_open
     os.link = _wrap2("link", "link")
     os.symlink = _wrap2("symlink", "link")
     os.stat = _wrap1("stat", "stat", False)
@@ -453,6 +485,7 @@ def _uninstall():
     for k in ("link", "symlink", "mkdir", "rmdir", "unlink", "remove", "rename", "replace",
               "stat", "lstat", "scandir", "listdir", "access", "truncate"):
         setattr(os, k, _orig[k])
+    os.open = _orig["os_open"]
     time.sleep = _orig["sleep"]
     shutil._use_fd_functions = _saved_rm
 
